@@ -77,7 +77,7 @@ BUDGET = {'quick': 120, 'thorough': 1500}
 
 CHANS   = {'control': rpc.CONTROL_PUBSUB, 'state': rpc.STATE_PUBSUB}
 PROXIES = [rpc.PROXY_CONTROL_PUBSUB, rpc.PROXY_STATE_PUBSUB]
-SRCS    = ['publish', 'advance', 'rpc_req', 'rpc_res', 'rpc_call', 'client_api']
+SRCS    = ['publish', 'advance', 'rpc_req', 'rpc_res', 'rpc_call', 'client_api', 'command_port']
 ORIGINS = ['absent', 'own', 'other', 'unknown']
 UNKNOWN = ['pilot.9999', 'agent', '', 'CLIENT']
 MARKERS = ('fwd', 'origin')
@@ -123,6 +123,9 @@ def enum_cases(tier):
                 for fwd in (None, False, True):
                     for o in ('absent', 'own', 'unknown'):
                         yield case(_msg(side, 'control', 'client_api', fwd, o))
+                if side:
+                    for fwd in (None, False, True):
+                        yield case(_msg(side, 'control', 'command_port', fwd, 'absent'))
                 for k in range(n_s):
                     # 'other' here = index of the addressed side among ALL sides
                     yield case(_msg(side, 'control', 'rpc_call', None, other=k))
@@ -135,7 +138,7 @@ def sequences(draw):
     msgs = []
     for _ in range(draw(st.integers(1, 6))):
         src = draw(st.sampled_from(['publish'] * 5 + ['advance'] * 2 +
-                                   ['rpc_req', 'rpc_res', 'rpc_call', 'client_api']))
+                                   ['rpc_req', 'rpc_res', 'rpc_call', 'client_api', 'command_port']))
         msgs.append(_msg(side=draw(st.integers(0, n_s - 1)),
                          chan=draw(st.sampled_from(['control', 'state'])),
                          src=src,
@@ -201,6 +204,65 @@ def build(n_sides, seen, replies):
         s.idx, s.mod, s.sess, s.comp = i, mod, sess, comp
         sides.append(s)
     return net, sides
+
+
+class _PortDone(BaseException):
+    pass
+
+
+def _command_port(side, msg):
+    """one JSON command arrives at the command port of this side's agent_0"""
+    import json
+    from radical.pilot.agent import agent_0 as m_a0
+    replies = []
+
+    class Conn(object):
+        def recv(self, n):
+            return json.dumps(msg).encode('utf-8')
+
+        def sendall(self, data):
+            replies.append(data)
+
+        def close(self):
+            pass
+
+    class Sock(object):
+        n = 0
+
+        def bind(self, addr):
+            pass
+
+        def listen(self, n):
+            pass
+
+        def accept(self):
+            Sock.n += 1
+            if Sock.n > 1:
+                raise _PortDone()
+            return Conn(), ('127.0.0.1', 40000)
+
+    class SockMod(object):
+        AF_INET = SOCK_STREAM = 0
+
+        @staticmethod
+        def socket(*a, **k):
+            return Sock()
+
+    a0 = m_a0.Agent_0.__new__(m_a0.Agent_0)
+    a0._log = boot.LOG
+    a0.publish = side.comp.publish
+    saved = (m_a0.socket, ru.find_port, ru.get_hostip, ru.write_json)
+    m_a0.socket = SockMod
+    ru.find_port, ru.get_hostip = (lambda *a, **k: 10000), (lambda *a, **k: '127.0.0.1')
+    ru.write_json = lambda *a, **k: None
+    try:
+        a0.command_port()
+    except _PortDone:
+        pass
+    finally:
+        m_a0.socket, ru.find_port, ru.get_hostip, ru.write_json = saved
+    if replies != [b'OK']:
+        raise RuntimeError('command port answered %r' % replies)
 
 
 def ident(msg):
@@ -277,9 +339,11 @@ def run_case(case):
         chan  = m['chan'] if m['chan'] in CHANS else 'control'
 
         try:
-            if src in ('publish', 'client_api'):
-                if src == 'client_api':
-                    chan = 'control'            # rp.Client publishes on the control channel only
+            if src == 'command_port' and s.idx == 0:
+                src = 'publish'                 # only agents have a command port
+            if src in ('publish', 'client_api', 'command_port'):
+                if src in ('client_api', 'command_port'):
+                    chan = 'control'            # rp.Client / the command port publish control messages only
                 msg = {'cmd': 'verif', 'mid': 'msg.%06d' % i,
                        'arg': {'n': i, 'l': [1, 'x', None], 'd': {'k': 1.5}}}
                 if fwd is not None:
@@ -295,7 +359,13 @@ def run_case(case):
                 elif o_cls == 'unknown':
                     msg['origin'] = UNKNOWN[int(m['other']) % len(UNKNOWN)]
                 key, f, sent = ('msg.%06d' % i, 'raw'), fwd, copy.deepcopy(msg)
-                if src == 'client_api':
+                if src == 'command_port' and fwd is None:
+                    sent['fwd'] = False         # the port's default: commands stay on the pilot
+                if src == 'command_port':
+                    # agent_0's TCP command port (bin/radical-pilot-control and other tools send
+                    # JSON commands there): the real Agent_0.command_port relays them
+                    _command_port(s, msg)
+                elif src == 'client_api':
                     # the documented client API (rp.Client, usable from the application and from
                     # inside a task): attached to this side's control bridge
                     cl = rp.Client.__new__(rp.Client)
